@@ -12,10 +12,12 @@ def grid(quick):
     g = []
     # instances: sphere, shifted multimodal in 1 dimension, plateaus (integer-valued objective: exact ties), ...
     # walled sphere (objective +inf outside a small feasible box: whole populations can be infeasible)
-    reals = ([REAL(2), REAL(1, 1, 0.0, 4.0), REAL(2, 2, -2.0, 2.0), REAL(3, 3, -8.0, 8.0)] if quick else
-             [REAL(2), REAL(1, 1, 0.0, 4.0), REAL(2, 2, -2.0, 2.0), REAL(3, 3, -8.0, 8.0), REAL(5, 1, -4.0, 12.0), REAL(3, 0, 0.5, 0.75)])
+    # negative objective values (linear with offset -100; negated sphere with -0.0 at the origin)
+    reals = ([REAL(2), REAL(1, 1, 0.0, 4.0), REAL(2, 2, -2.0, 2.0), REAL(3, 3, -8.0, 8.0), REAL(2, 4, -5.0, 5.0)] if quick else
+             [REAL(2), REAL(1, 1, 0.0, 4.0), REAL(2, 2, -2.0, 2.0), REAL(3, 3, -8.0, 8.0), REAL(2, 4, -5.0, 5.0), REAL(3, 5, -1.0, 1.0),
+              REAL(5, 1, -4.0, 12.0), REAL(3, 0, 0.5, 0.75)])
     bits = [BITS(8)] if quick else [BITS(1), BITS(8)]
-    tsps = [TSP(5), TSP(5, 3)] if quick else [TSP(4), TSP(7, 1), TSP(8, 2), TSP(6, 3)]
+    tsps = [TSP(5), TSP(5, 3), TSP(5, 4)] if quick else [TSP(4), TSP(7, 1), TSP(8, 2), TSP(6, 3), TSP(5, 4), TSP(6, 4)]
     for pr in reals:
         for ps, ts in ([(4, 2), (1, 1)] if quick else [(4, 2), (1, 1), (7, 7), (10, 3)]):
             for pm in ([1.0] if quick else [0.0, 0.5, 1.0]):
@@ -25,6 +27,8 @@ def grid(quick):
         # incl. the smallest populations the selection accepts (population_size = 2y)
         for ps, y in ([(5, 1), (5, 2), (2, 1), (4, 2)] if quick else [(2, 1), (3, 1), (5, 1), (4, 2), (5, 2), (9, 2)]):
             g.append(("real_de", {"population_size": ps, "y": y, "f": 0.5, "pc": 0.5}, pr, (ps, ps)))
+        # a scale factor of 2: trial vectors leave the domain, are clamped onto its ends and coincide
+        g.append(("real_de", {"population_size": 6, "y": 2, "f": 2.0, "pc": 1.0}, pr, (6, 6)))
         w = pr["hi"] - pr["lo"]
         for np_, c, vm in ([(3, 0.5, 0.1), (1, 0.0, 10.0)] if quick else [(1, 0.0, 10.0), (2, 0.5, 0.1), (3, 2.0, 0.001), (10, 0.5, 0.1), (10, 0.0, 10.0)]):
             g.append(("real_pso", {"num_particles": np_, "start_weight": 0.9, "end_weight": 0.4, "c_one": c, "c_two": c, "v_max": vm * w}, pr, (np_, np_)))
@@ -33,6 +37,8 @@ def grid(quick):
         g.append(("real_pso", {"num_particles": 2, "start_weight": 0.7, "end_weight": 0.7, "c_one": 0.0, "c_two": 0.0, "v_max": 10.0 * w}, pr, (2, 2)))
         # compound termination criterion: an evaluation budget that never bites, OR-ed in front of the iteration bound
         g.append(("real_pso|evals", {"num_particles": 3, "start_weight": 0.9, "end_weight": 0.4, "c_one": 0.5, "c_two": 0.5, "v_max": 0.1 * w}, pr, (3, 3)))
+        # a log rule "only the first 4 passes" (its trigger is a LessThanN on the same counter as the loop's)
+        g.append(("real_pso|log4", {"num_particles": 3, "start_weight": 0.9, "end_weight": 0.4, "c_one": 0.5, "c_two": 0.5, "v_max": 0.1 * w}, pr, (3, 3)))
         # no inertia at all: particles sitting on their own and the global best come to rest (zero velocity)
         g.append(("real_pso", {"num_particles": 4, "start_weight": 0.0, "end_weight": 0.0, "c_one": 2.0, "c_two": 2.0, "v_max": 0.25 * w}, pr, (4, 4)))
         for t0 in ([1.0] if quick else [1e-9, 1.0, 1e9]):
@@ -50,12 +56,17 @@ def grid(quick):
         g.append(("real_iwo", {"initial_population_size": 1, "max_population_size": 3, "min_number_of_seeds": 0,
                                "max_number_of_seeds": 1, "initial_deviation": 0.01, "final_deviation": 0.5,
                                "modulation_index": 2}, pr, (1, 3)))
+        # mutation configured with strength 0 that the schedule raises afterwards
+        g.append(("real_iwo", {"initial_population_size": 3, "max_population_size": 5, "min_number_of_seeds": 1,
+                               "max_number_of_seeds": 2, "initial_deviation": 0.0, "final_deviation": 0.3,
+                               "modulation_index": 2}, pr, (3, 5)))
         for ip, mp in ([(3, 6)] if quick else [(1, 1), (3, 6), (5, 20)]):
             g.append(("real_iwo", {"initial_population_size": ip, "max_population_size": mp, "min_number_of_seeds": 1,
                                    "max_number_of_seeds": 3, "initial_deviation": 0.01, "final_deviation": 0.5,
                                    "modulation_index": 2}, pr, (min(ip, mp), mp)))
         for ps in ([3] if quick else [1, 3, 6]):
             g.append(("real_fa", {"pop_size": ps, "alpha": 0.25, "beta": 1.0, "gamma": 1.0, "delta": 0.97}, pr, (ps, ps)))
+        g.append(("real_fa", {"pop_size": 3, "alpha": 0.25, "beta": 0.2, "gamma": 2.0, "delta": 0.97}, pr, (3, 3)))
         # the same template for a non-default evaluator identifier (a poisoned evaluator sits under the default one)
         g.append(("real_fa@A", {"pop_size": 3, "alpha": 0.25, "beta": 1.0, "gamma": 1.0, "delta": 0.97}, pr, (3, 3)))
         for ps in ([3] if quick else [1, 3, 8]):
@@ -91,6 +102,9 @@ def grid(quick):
             for dflt in (5.0, 0.001):
                 g.append(("max_min_ant_system", {"num_ants": ants, "alpha": 1.0, "beta": 1.0, "default_pheromones": dflt, "evaporation": 0.0,
                                                  "max_pheromones": 2.0, "min_pheromones": 0.1}, pr, (ants + 1, ants + 1)))
+            # trails start on the upper bound and decay onto the lower one within a few passes
+            g.append(("max_min_ant_system", {"num_ants": ants, "alpha": 1.0, "beta": 1.0, "default_pheromones": 1.0, "evaporation": 0.3,
+                                             "max_pheromones": 1.0, "min_pheromones": 0.2}, pr, (ants + 1, ants + 1)))
             # the default level may lie outside the bounds: the first update has to bring every trail inside
             g.append(("max_min_ant_system", {"num_ants": ants, "alpha": 1.0, "beta": 1.0, "default_pheromones": 10.0, "evaporation": 0.05,
                                              "max_pheromones": 2.0, "min_pheromones": 0.1}, pr, (ants + 1, ants + 1)))
@@ -102,7 +116,7 @@ def grid(quick):
 # templates whose components only compare objective values: run on the walled sphere (+inf objectives) as well;
 # the others do arithmetic on objective values (fitness-proportional seeds, energies), for which the
 # properties do not state what infinite values should do
-INF_OK = {"real_pso", "real_pso|evals", "real_ga", "real_es", "real_de", "real_sa", "real_ls", "real_rs", "real_rw"}
+INF_OK = {"real_pso", "real_pso|evals", "real_pso|log4", "real_ga", "real_es", "real_de", "real_sa", "real_ls", "real_rs", "real_rw"}
 
 
 def specs(quick, seeds, iters):
